@@ -47,6 +47,10 @@ def as_input(v, container):
         return [int(x) for x in v]
     if container == 'float_list':
         return [float(x) for x in v]
+    if container == 'float32_array':      # only for values exactly representable in single precision (dyadic / whole numbers)
+        a = np.array(v, dtype=np.float32)
+        assert np.array_equal(a.astype(float), np.array(v, dtype=float))
+        return a
     raise ValueError(container)
 
 
@@ -361,7 +365,17 @@ def gen_roll(ctx):
         cont = 'float_array'
         if kind in ('int', 'plateau') and rng.random() < 0.4:
             cont = rng.choice(['int_array', 'int_list'])
+        elif kind in ('dyadic', 'const') and exact and rng.random() < 0.4:
+            cont = 'float32_array'
         do_roll(ctx, v, steps, mode, exact, kind, cont)
+    # long single-precision / integer records with an offset: the running sums must be accumulated in double precision whatever
+    # the dtype of the input (the values are whole numbers + eighths, exact in float32; the exact spec is compared at 1e-9)
+    for it in range(4 if ctx.tier == 'quick' else 40):
+        n = rng.choice([1000, 3000, 5000])
+        off = rng.choice([0, 250, 1000])
+        v = [off + rng.randint(-8, 8) / 8 for _ in range(n)]
+        do_roll(ctx, v, rng.choice([2, 5, 16, 50]), rng.choice(['forward', 'backward', 'centre']), False, 'long-offset',
+                rng.choice(['float32_array', 'float32_array', 'float_array']))
     ctx.flush()
 
 
